@@ -211,8 +211,12 @@ func c19Getters() []c19Getter {
 	gs = append(gs,
 		c19Getter{"WithIndent", "I", func(o json.Options) (any, bool) { return json.GetOption(o, jsontext.WithIndent) }},
 		c19Getter{"WithIndentPrefix", "P", func(o json.Options) (any, bool) { return json.GetOption(o, jsontext.WithIndentPrefix) }},
-		c19Getter{"WithByteLimit", "L", func(o json.Options) (any, bool) { return json.GetOption(o, func(n int64) json.Options { return jsonopts.ByteLimit(n) }) }},
-		c19Getter{"WithDepthLimit", "D", func(o json.Options) (any, bool) { return json.GetOption(o, func(n int) json.Options { return jsonopts.DepthLimit(n) }) }},
+		c19Getter{"WithByteLimit", "L", func(o json.Options) (any, bool) {
+			return json.GetOption(o, func(n int64) json.Options { return jsonopts.ByteLimit(n) })
+		}},
+		c19Getter{"WithDepthLimit", "D", func(o json.Options) (any, bool) {
+			return json.GetOption(o, func(n int) json.Options { return jsonopts.DepthLimit(n) })
+		}},
 		c19Getter{"WithMarshalers", "M", func(o json.Options) (any, bool) { return json.GetOption(o, json.WithMarshalers) }},
 		c19Getter{"WithUnmarshalers", "U", func(o json.Options) (any, bool) { return json.GetOption(o, json.WithUnmarshalers) }},
 	)
@@ -611,16 +615,16 @@ func c19Scoped(c *Ctx) {
 // ---- (f,g) v1 = v2 + DefaultOptionsV1 ; DefaultOptionsV2 cancels v1 options
 
 type c19T struct {
-	A int               `json:"a,omitempty"`
-	B string            `json:"b"`
-	C []byte            `json:"c"`
-	D map[string]int    `json:"d"`
-	E []int             `json:"e"`
-	F *int              `json:"f,omitempty"`
-	G [2]byte           `json:"g"`
-	H float64           `json:"h,string"`
-	I map[int]string    `json:"i"`
-	J any               `json:"j"`
+	A int                `json:"a,omitempty"`
+	B string             `json:"b"`
+	C []byte             `json:"c"`
+	D map[string]int     `json:"d"`
+	E []int              `json:"e"`
+	F *int               `json:"f,omitempty"`
+	G [2]byte            `json:"g"`
+	H float64            `json:"h,string"`
+	I map[int]string     `json:"i"`
+	J any                `json:"j"`
 	K struct{ X, Y int } `json:"k"`
 }
 
@@ -829,7 +833,6 @@ type c19F struct {
 	N  int            `json:"n,string"`
 	F  float64        `json:"f,format:nonfinite"`
 	P  *time.Time     `json:"p,format:unixmilli"`
-	L  []time.Time    `json:"l,format:unix"`
 }
 
 func c19FVal(r *rand.Rand) any {
@@ -843,7 +846,6 @@ func c19FVal(r *rand.Rand) any {
 		f.B4 = []byte("abc")
 		t := tm()
 		f.P = &t
-		f.L = []time.Time{tm()}
 	}
 	if r.IntN(3) == 0 {
 		return []c19F{f}
